@@ -44,7 +44,7 @@ def guard_sequences(ctx, maxlen):
 def run(ctx):
     build(['reclaim', 'markedptr'])
     q = ctx.quick
-    tlc_mc(ctx, 'marked_ptr_all_widths', 'MarkedPtrMC', {'Us': '={0, 8, 16}'}, invariants=['AllRoundTrip', 'AllDisjoint'], workers=2)
+    tlc_mc(ctx, 'marked_ptr_all_widths', 'MarkedPtrMC', {'Us': '={0, 1, 3, 7, 8, 12, 16, 20}'}, invariants=['AllRoundTrip', 'AllDisjoint'], workers=2)
     marked_ptr_vectors(ctx)
     seqs = guard_sequences(ctx, 2)
     if not q:
